@@ -12,7 +12,13 @@ minimum, pixel index `trunc (round₆ q)`, `searchsorted` of event times in the 
 per-line placement (four direction cases, flip, end alignment), squeeze.
 
 Specification: `render` writes the log and the continuous signal of a rastered acquisition
-(eight scan patterns, gaps, several patterns) and `truth` is the ground-truth image.
+(eight scan patterns, gaps, several patterns) and `truthImage` is the ground-truth image.  The
+acquisition is laid out explicitly: one `LineRec` per line carrying the laser clock at which its gap
+begins (`layLines`, `layPatterns`), log rows and samples are `flatMap`s over these records, and the
+index of a line's first pixel sample is a prefix sum (`lineStarts`).  `truthHyp` is the decidable
+domain of the ground truth; `PewTheorems.C08.sync_render` proves `sync (render a) = truthImage a` on it.
+Spot sizes are formatted and parsed on character lists (`fmtDecL`, `parseDecL`, `splitX`) so that the
+round trip is provable for every value.
 -/
 namespace Pew.Sync
 
@@ -44,6 +50,13 @@ def selectRows (sel : Option (List Int)) (rows : List Row) : List Row :=
   match sel with
   | none => filled
   | some s => filled.filter (fun r => s.contains r.seq)
+
+/-- a logged pattern: a header row carrying the sequence number, then rows with a blank one -/
+structure Block where
+  hdr : Row
+  body : List Row
+
+def Block.rows (b : Block) : List Row := b.hdr :: b.body
 
 /-- `log[np.stack((start_idx, start_idx + 1), axis=1).flat]` reshaped to (-1, 2);
 `none` = IndexError (an `On` row that is the last row) -/
